@@ -21,6 +21,7 @@ pub fn dev_fail(entry: Entry) -> Vec<Act> {
         v.push(sign_act(0, Entry::Bytes, Cb::Reject, AuxMode::None));
         v.push(sign_act(1, Entry::Bytes, Cb::Reject, AuxMode::Fresh));
         v.push(sign_act(0, Entry::Bytes, Cb::Reject, AuxMode::Valid));
+        v.push(sign_act(0, Entry::Bytes, Cb::RejectPersisted, AuxMode::None));
     }
     for k in [Dmg::Truncated, Dmg::Extended, Dmg::BadParam, Dmg::CounterAtLifetime, Dmg::CounterMax, Dmg::Wiped, Dmg::Empty] {
         v.push(Act::Damaged { kind: k, entry });
@@ -298,6 +299,9 @@ pub fn run_c03(ctx: &Ctx) -> (&'static str, Map<String, Value>) {
         sign_act(0, Entry::Key, Cb::Accept, AuxMode::None),
         Act::Damaged { kind: Dmg::Truncated, entry: Entry::Bytes },
         sign_act(2, Entry::Bytes, Cb::Accept, AuxMode::Fresh),
+        // the key was written, then the storage layer reported failure: no signature, but the
+        // history continues from the advanced key
+        sign_act(1, Entry::Bytes, Cb::RejectPersisted, AuxMode::None),
     ];
     let mut cfgs = vec![];
     cfgs.push(cfg(ctx, Hid::S32, vec![hw(2, 4), hw(2, 4)], 0, None, 2, devs.clone()));
